@@ -214,9 +214,12 @@ where
             4 => {
                 let logd = 1 + tape::w("ints.logdomain", 24) as u32;
                 let domain = 1usize << logd;
-                let n = match tape::w("ints.count.class", 4) {
+                let n = match tape::w("ints.count.class", 6) {
                     0 => 1,
                     1 => (domain - 1).min(255),
+                    // none at all, and counts around the coin's documented budget of 1000 draws
+                    2 => 0,
+                    3 => [999usize, 1000, 1001, 1024, 4000][tape::w("ints.count.big", 5) as usize].min(domain - 1),
                     _ => 1 + tape::w("ints.count", (domain - 1).min(255) as u64) as usize,
                 };
                 let nonce = match tape::w("ints.nonce.class", 3) {
@@ -228,8 +231,13 @@ where
                 let ra = guard(|| a.draw_integers(n, domain, nonce));
                 let rb = guard(|| b.draw_integers(n, domain, nonce));
                 let rc = guard(|| c.draw_integers(n, domain, nonce));
-                let rm = m.draw_integers(n, domain, nonce);
+                // beyond 1000 values the coin documents an error (after spending its 1000 draws)
+                let rm = m.draw_integers(n.min(1000), domain, nonce);
+                if n == 0 {
+                    stats::probe("probe.zero_integers_requested");
+                }
                 match (ra, rb) {
+                    (Ok(Err(_)), Ok(Err(_))) if n > 1000 => stats::probe("probe.more_integers_than_the_draw_budget"),
                     (Ok(Ok(x)), Ok(Ok(y))) => {
                         if x != y {
                             fail!("replicas-disagree", "draw_integers", "{cname} step {step}");
